@@ -1557,6 +1557,73 @@ def oracle_nagle_off(case, impl):
     return hits
 
 
+def oracle_stuck(case, impl):
+    """C02: no silent dead end. After a poll on a working transport in Established, with the peer's window wide open:
+    if bytes accepted by write have never been transmitted, nothing at all is in flight and neither the
+    retransmission nor any other sending-side timer is armed, then nothing will ever send them (no ACK can arrive,
+    no timer will fire): the connection has stalled for good although it could send."""
+    tr = Trace(case, impl)
+    hits = []
+    if any(l.startswith(("vs tmode", "vs chanclose")) for l in case):
+        return []
+    ok, pending, outstanding, highest, sent_first = False, [], {}, None, 0
+    for ev in tr.events:
+        if ev["op"] == "new":
+            ok = ev["opts"]["dir"] == "out"
+            pending, outstanding, sent_first = [], {}, 0
+            highest = (int(ev["opts"].get("our", 101)) - 1) % 65536
+        if not ok:
+            continue
+        if ev["op"] == "inject":
+            pending.append(ev.get("dgram"))
+        if ev["op"] != "poll" or "dgrams" not in ev:
+            continue
+        fp = ev["fp"]
+        for d in pending:
+            if d is None or d["type"] in (1, 3, 4) or (highest is not None and (_md(d["ack"], highest) > 0 or _sack_beyond(d, highest))):
+                ok = False
+                break
+            for q in list(outstanding):
+                if _md(d["ack"], q) >= 0:
+                    del outstanding[q]
+            if d["sack"] is not None:
+                raw = (bytes(d["sack"]) + bytes(8))[:8]
+                for b in range(64):
+                    if raw[b // 8] >> (b % 8) & 1:
+                        outstanding.pop((d["ack"] + 2 + b) % 65536, None)
+        pending = []
+        if not ok or not ev["res"].startswith("pending") or fp.get("st") != "Established":
+            ok = ok and ev["res"].startswith("pending")
+            continue
+        for d in ev["dgrams"]:
+            if d["type"] == 0:
+                if highest is None or _md(d["seq"], highest) > 0:
+                    highest = d["seq"]
+                    sent_first += d["plen"]
+                outstanding[d["seq"]] = d["plen"]
+        # a popped probe releases its number and its bytes: they count as never transmitted again
+        try:
+            lss = int(fp.get("lss"))
+            for q in list(outstanding):
+                if _md(q, lss) > 0:
+                    sent_first -= outstanding.pop(q)
+                    highest = lss
+        except (TypeError, ValueError):
+            pass
+        unsent = ev["accepted_total"] - sent_first
+        try:
+            lrw = int(fp.get("lrw"))
+            max_ss = int(fp.get("ss", "").split("max_ss=")[1].split(";")[0])
+        except (TypeError, ValueError, IndexError):
+            continue
+        if unsent > 0 and not outstanding and lrw >= 2 * max_ss and fp.get("t_rtx") == "-" and fp.get("t_ack") == "-" \
+                and fp.get("t_pipe", "-") == "-" and fp.get("rec", "no") == "no":
+            hits.append({"sig": {"oracle": "stuck", "what": "unsent_data_nothing_in_flight_no_timer_window_open"},
+                         "text": f"poll at t={ev['t']} ns: {unsent} accepted bytes have never been transmitted, nothing is in flight, the peer's window is {lrw} and no sending-side timer is armed (rto_retransmissions={fp.get('rtor')}): nothing will ever send them"})
+            return hits
+    return hits
+
+
 def oracle_eof_honest(case, impl):
     """C03: a reader sees a clean end-of-stream only after the peer's FIN: never when no FIN was ever received
     (connection aborted, channel from the socket lost, cancelled): then reads must report an error."""
@@ -1716,6 +1783,7 @@ def oracle_window_reopen(case, impl):
 
 
 ALL = {
+    "stuck": oracle_stuck,
     "nagle_off": oracle_nagle_off,
     "wire_wellformed": oracle_wire_wellformed,
     "karn": oracle_karn,
